@@ -476,10 +476,19 @@ def term_refs(smt):
 
 
 def grain_fn(run):
-    """true dyadic grain of exact terms: terms are normalised to linear forms c0 + sum c_i*v_i where possible;
-    returns g with value in 2^-g Z for every valuation of the grid variables, or None when unknown"""
-    lin_memo = {}
-    g_memo = {}
+    """true dyadic grain / exactness of terms.  Every term is normalised to a linear form  sum c_k * X_k  with exact
+    rational coefficients, where X_k is a variable, the constant 1, or an *atom* (a non-linear sub-term such as
+    min/max/abs/floor or a product, identified structurally so that equal atoms cancel).
+    grain(i) = g with value in 2^-g Z for every valuation of the grid variables (None: unknown);
+    grain.exact(i) = the f32 operation producing term i is free of rounding for every valuation in the domain."""
+    hh = struct_hasher(run)
+    lin_memo, g_memo, ex_memo, mb_memo = {}, {}, {}, {}
+    atoms = {}
+
+    def atom(i):
+        k = ("a", hash(hh(i)))
+        atoms.setdefault(k, i)
+        return {k: Fraction(1)}
 
     def lin(i):
         if i in lin_memo:
@@ -489,81 +498,136 @@ def grain_fn(run):
         if op == "var":
             res = {int(a[0]): Fraction(1)}
         elif op == "const":
-            res = {-1: Fraction(f32_from_bits(int(a[0])))}
+            v = f32_from_bits(int(a[0]))
+            res = {-1: Fraction(v)} if v == v and abs(v) != float("inf") else atom(i)
         elif op in ("add", "sub"):
             x, y = lin(int(a[0])), lin(int(a[1]))
-            if x is not None and y is not None:
-                res = dict(x)
-                sgn = 1 if op == "add" else -1
-                for k, c in y.items():
-                    res[k] = res.get(k, 0) + sgn * c
+            res = dict(x)
+            sgn = 1 if op == "add" else -1
+            for k, c in y.items():
+                res[k] = res.get(k, 0) + sgn * c
+                if res[k] == 0:
+                    del res[k]
         elif op == "neg":
-            x = lin(int(a[0]))
-            if x is not None:
-                res = {k: -c for k, c in x.items()}
+            res = {k: -c for k, c in lin(int(a[0])).items()}
         elif op == "mul":
             x, y = lin(int(a[0])), lin(int(a[1]))
-            if x is not None and y is not None:
-                if set(x) <= {-1}:
-                    c = x.get(-1, Fraction(0))
-                    res = {k: c * v for k, v in y.items()}
-                elif set(y) <= {-1}:
-                    c = y.get(-1, Fraction(0))
-                    res = {k: c * v for k, v in x.items()}
+            if set(x) <= {-1}:
+                c = x.get(-1, Fraction(0))
+                res = {k: c * v for k, v in y.items() if c * v != 0}
+            elif set(y) <= {-1}:
+                c = y.get(-1, Fraction(0))
+                res = {k: c * v for k, v in x.items() if c * v != 0}
+            else:
+                res = atom(i)
         elif op == "div":
             x, y = lin(int(a[0])), lin(int(a[1]))
-            if x is not None and y is not None and set(y) <= {-1} and y.get(-1, 0) != 0:
+            if set(y) <= {-1} and y.get(-1, 0) != 0:
                 c = y[-1]
                 res = {k: v / c for k, v in x.items()}
+            else:
+                res = atom(i)
+        else:
+            res = atom(i)
         lin_memo[i] = res
         return res
 
     def pow2log(d):
-        return d.bit_length() - 1 if d & (d - 1) == 0 else None
+        return d.bit_length() - 1 if d > 0 and d & (d - 1) == 0 else None
+
+    def key_grain(k):
+        if k == -1:
+            return 0
+        if isinstance(k, int):
+            return max(0, run.vars[k][2])
+        return atom_grain(atoms[k])
+
+    def key_bound(k):
+        if k == -1:
+            return Fraction(1)
+        if isinstance(k, int):
+            return Fraction(max(abs(run.vars[k][0]), abs(run.vars[k][1])))
+        return atom_bound(atoms[k])
+
+    def atom_grain(i):
+        ex, g, vb, op, a = run.terms[i]
+        if op in ("min", "max"):
+            x, y = grain(int(a[0])), grain(int(a[1]))
+            return None if x is None or y is None else max(x, y)
+        if op == "abs":
+            return grain(int(a[0]))
+        if op in ("floor", "ceil", "round", "trunc"):
+            return 0
+        if op == "mul":
+            x, y = grain(int(a[0])), grain(int(a[1]))
+            return None if x is None or y is None else x + y
+        return None
+
+    def atom_bound(i):
+        ex, g, vb, op, a = run.terms[i]
+        if op in ("min", "max"):
+            x, y = maxabs(int(a[0])), maxabs(int(a[1]))
+            return None if x is None or y is None else max(x, y)
+        if op == "abs":
+            return maxabs(int(a[0]))
+        if op in ("floor", "ceil", "round", "trunc"):
+            x = maxabs(int(a[0]))
+            return None if x is None else x + 1
+        if op == "mul":
+            x, y = maxabs(int(a[0])), maxabs(int(a[1]))
+            return None if x is None or y is None else x * y
+        return None
 
     def grain(i):
         if i in g_memo:
             return g_memo[i]
-        ex, g, vb, op, a = run.terms[i]
-        res = None
-        l = lin(i)
-        if l is not None:
-            res = 0
-            for k, c in l.items():
-                if c == 0:
-                    continue
-                sh = 0 if k == -1 else run.vars[k][2]
-                p = pow2log((Fraction(c) / (2 ** sh)).denominator)
-                if p is None:
-                    res = None
-                    break
-                res = max(res, p)
-        elif op in ("min", "max"):
-            x, y = grain(int(a[0])), grain(int(a[1]))
-            res = None if x is None or y is None else max(x, y)
-        elif op in ("abs",):
-            res = grain(int(a[0]))
-        elif op in ("floor", "ceil", "round", "trunc"):
-            res = 0
-        elif op in ("add", "sub"):
-            x, y = grain(int(a[0])), grain(int(a[1]))
-            res = None if x is None or y is None else max(x, y)
-        elif op == "neg":
-            res = grain(int(a[0]))
-        elif op == "mul":
-            x, y = grain(int(a[0])), grain(int(a[1]))
-            res = None if x is None or y is None else x + y
-        elif op == "div":
-            y = lin(int(a[1]))
-            x = grain(int(a[0]))
-            if y is not None and set(y) <= {-1} and x is not None:
-                c = abs(y.get(-1, Fraction(0)))
-                if c != 0 and c.numerator == 1 and pow2log(c.denominator) is not None:
-                    res = max(0, x - pow2log(c.denominator))
-                elif c != 0 and c.denominator == 1 and pow2log(c.numerator) is not None:
-                    res = x + pow2log(c.numerator)
+        g_memo[i] = None  # cycle guard (DAG: not needed, but cheap)
+        res = 0
+        for k, c in lin(i).items():
+            kg = key_grain(k)
+            if kg is None:
+                res = None
+                break
+            p = pow2log((Fraction(c) / (2 ** kg)).denominator)
+            if p is None:
+                res = None
+                break
+            res = max(res, p)
         g_memo[i] = res
         return res
+
+    def maxabs(i):
+        if i in mb_memo:
+            return mb_memo[i]
+        m = Fraction(0)
+        for k, c in lin(i).items():
+            b = key_bound(k)
+            if b is None:
+                m = None
+                break
+            m += abs(c) * b
+        mb_memo[i] = m
+        return m
+
+    def exact(i):
+        if i in ex_memo:
+            return ex_memo[i]
+        ex, g, vb, op, a = run.terms[i]
+        if ex == "E":
+            res = True
+        elif op in ("var", "const"):
+            res = ex == "E"
+        elif op == "app":
+            res = False
+        else:
+            kids = [int(x) for x in a]
+            res = all(exact(k) for k in kids)
+            if res and op not in ("min", "max", "abs", "neg"):
+                gg, mm = grain(i), maxabs(i)
+                res = gg is not None and mm is not None and mm * (2 ** gg) <= 2 ** 24
+        ex_memo[i] = res
+        return res
+    grain.exact = exact
     return grain
 
 
@@ -939,18 +1003,18 @@ def explore(ctx, tpl, stats):
             st.setdefault("symfns", {}).setdefault(f, 0)
             st["symfns"][f] += 1
         pcs = [cond_smt(c) for c in r.path]
-        inexact_br = sum(1 for c in r.path if r.terms[c[2]][0] == "I" or r.terms[c[3]][0] == "I")
+        gr = grain_fn(r)
+        inexact_br = sum(1 for c in r.path if not (gr.exact(c[2]) and gr.exact(c[3])))
         st["inexact_branches"] = st.get("inexact_branches", 0) + inexact_br
         # number formatting is modelled as the identity: sound where the printed value is a multiple of 1/8.
         # The runtime's syntactic grain <= 3 proves that; otherwise the term is normalised to a linear form over the
         # variables (exact rational coefficients) and its true grain is computed from the coefficients.
         offgrid = 0
-        gr = grain_fn(r)
         for t in r.fstr:
             ex, g = r.terms[t][0], r.terms[t][1]
             if ex == "E" and (g or 0) <= 3:
                 continue
-            if ex == "I":
+            if not gr.exact(t):
                 offgrid += 1
                 continue
             g2 = gr(t)
@@ -977,7 +1041,7 @@ def explore(ctx, tpl, stats):
                 cvals = vals
             else:
                 q, ids = query_text(r, pcs, o.neg, o.mode, tpl.assume)
-                if any(r.terms[i][0] == "I" for i in ids):
+                if any(not gr.exact(i) for i in ids):
                     st["inexact_obligations"] = st.get("inexact_obligations", 0) + 1
                 want = [f"k{k}" for k in range(len(r.vars))] if o.mode == "int" else [f"v{k}" for k in range(len(r.vars))]
                 ans, model = ctx.z3.ask(q, want)
